@@ -249,6 +249,12 @@ func (t *Tree) canAttachOrRemove(c *Change, addToWait bool) (attach, remove bool
 	if c == nil {
 		return false, false
 	}
+	// only the root has no previous ids. Any other change without them would be attached with no
+	// path from the root: the full validation, the iteration, the heads and the order ids never
+	// reach it (or its descendants), so it must not enter the tree
+	if len(c.PreviousIds) == 0 {
+		return false, true
+	}
 	attach = true
 	for _, pid := range c.PreviousIds {
 		if _, ok := t.attached[pid]; ok {
